@@ -1,4 +1,4 @@
-/* executor for family `iter` (property C06): the request language of family `store` (see x_store.c) — the generator
+/* executor for family `iter` (property C06): the request language of family `store` (see x_store_body.h) — the generator
    tools/gen/iter.py builds a loop, opens an iterator, runs one of ALL call sequences up to a length bound, then dumps
    and makes a non-iterator call. */
-#include "x_store.c"
+#include "x_store_body.h"
